@@ -19,7 +19,7 @@ ID = "C06"
 LEVEL = "exploration"
 TECHNIQUE = "deterministic simulation of isolated write episodes through the real client API, serializer, fragmented simulated network, server handler, framing, router and driver; before/after snapshots of every element of every device against INDI write semantics"
 RULE = ("scenario = generated multi-device deployment x sequence of write episodes (settle, snapshot, one client assigns values to a non-empty "
-        "element subset of one writable property and submits, settle, snapshot), optionally separated by history (re-handshake, property/group off and on) x network knobs; distinct = different signature (vector "
+        "element subset of one writable property and submits, settle, snapshot), optionally doubled by a write to the same-named property of a twin device, optionally separated by history (re-handshake, property/group off and on) x network knobs; distinct = different signature (vector "
         "kind, rule, number format class, subset size, net knobs, #devices); non-trivial = at least one episode whose message reached the driver")
 COMPONENTS = c01.COMPONENTS
 ASSUMPTIONS = [
